@@ -856,8 +856,62 @@ def snapshot_pass(ck, okm, violate):
 
 
 # ----------------------------------------------------------------------------
+def driver_tie(ck):
+    """the driver side of 'the dump of used values (defaults included) can be fed back as a parameter file': complete runs of the real
+    binary; the <params>.used-values file of the first run is the parameter file of the second; the second run must succeed and
+    dump the same values, and no parameter the first run was given may be reported as unused"""
+    import shutil
+    okb, logb = vf.repo_ninja(["CMacIonize"])
+    if not okb:
+        ck.breaks.append("whole binary does not build: " + logb[-800:])
+        return 0
+    exe = os.path.join(vf.REPOBUILD, "rundir", "CMacIonize")
+    conf = os.path.join(vf.VERIF, "harness", "configs")
+    # parameter files of this tie contain only parameters their run reads (a parameter nobody reads is, correctly, dumped as unused)
+    leg = open(os.path.join(conf, "ion_legacy.param")).read().replace("Abundances:\n  helium: 0.\n", "")
+    leg_tr = leg.replace("  random seed: 42\n", "  random seed: 42\n  enable trackers: true\n") + "TrackerManager:\n  filename: c20_trackers.yml\n  minimum number of photon packets: 5000\n"
+    trk = "number of trackers: 1\n\ntracker[0]:\n  type: Spectrum\n  position: [2. pc, 0. pc, 0. pc]\n  output name: c20_tracker0.txt\n"
+    runs = [("default mode, one spectrum tracker", [], leg_tr), ("default mode", [], leg), ("task-based mode", ["--task-based"], open(os.path.join(conf, "ion.param")).read())]
+    strip = lambda t: [re.sub(r"\s*#.*$", "", l) for l in t.splitlines() if not l.lstrip().startswith("#") and l.strip()]
+    n = 0
+    for name, args, txt in runs:
+        w = os.path.join(ck.scratch, "drv_used_%d" % n)
+        shutil.rmtree(w, ignore_errors=True)
+        os.makedirs(w)
+        for f in os.listdir(conf):
+            shutil.copy(os.path.join(conf, f), w)
+        open(os.path.join(w, "c20_trackers.yml"), "w").write(trk)
+        open(os.path.join(w, "gen1.param"), "w").write(txt)
+        rc1, out1 = vf.sh([exe] + args + ["--params", "gen1.param", "--threads", "1", "--dirty"], cwd=w, timeout=600)
+        n += 1
+        d1 = os.path.join(w, "gen1.param.used-values")
+        why = None
+        if rc1 != 0 or not os.path.exists(d1):
+            ck.breaks.append("driver tie (used values): the first run of `%s` fails (exit %d) or writes no used-values file" % (name, rc1))
+            continue
+        t1 = open(d1).read()
+        unused = [l.strip() for l in t1.splitlines() if "value not used" in l]
+        shutil.copy(d1, os.path.join(w, "gen2.param"))
+        rc2, out2 = vf.sh([exe] + args + ["--params", "gen2.param", "--threads", "1", "--dirty"], cwd=w, timeout=600)
+        d2 = os.path.join(w, "gen2.param.used-values")
+        if unused:
+            why = "the dump of the first run reports parameters of its own parameter file as unused although the run used them (the dump is written before they are read): %s" % unused[:4]
+        elif rc2 != 0:
+            err = [l for l in out2.splitlines() if "rror" in l][:2]
+            why = "fed back as parameter file, the dump is rejected (exit %d): %s" % (rc2, err)
+        elif not os.path.exists(d2) or strip(open(d2).read()) != strip(t1):
+            a, b = strip(t1), strip(open(d2).read()) if os.path.exists(d2) else []
+            why = "the run on the fed-back dump uses other values: %s" % [x for x in zip(a, b) if x[0] != x[1]][:3]
+        if why:
+            ck.violation("C20 fails on the real binary (%s): %s" % (name, why), {"driver_run": name}, key={"kind": "driver_used_values", "run": name})
+        shutil.rmtree(w, ignore_errors=True)
+    ck.coverage["driver_used_values_runs"] = n
+    return n
+
+
 def run(ck):
     ck.prove()
+    driver_tie(ck)
     okm, oki = build(ck)
     rng = ck.rng
     cov = ck.coverage
@@ -1239,6 +1293,11 @@ def replay_snapshot(ck, rp):
 
 
 def replay(ck, rp):
+    if "driver_run" in rp["replay"]:
+        driver_tie(ck)
+        bad = [v for v in ck.violations if v["key"].get("kind") == "driver_used_values"]
+        print("REPLAY:", bad[0]["what"] if bad else "property holds on this input")
+        return 1 if bad else 0
     if "snapshot_cmd" in rp["replay"]:
         return replay_snapshot(ck, rp)
     okm, oki = build(ck)
